@@ -23,6 +23,12 @@ def tree(fn, v, opaque=(), depth=0):
         return ('phi', [tree(fn, x, opaque, depth + 1) for x, _ in d.incoming])
     if d.op == 'select':
         return ('phi', [tree(fn, d.ops[1], opaque, depth + 1), tree(fn, d.ops[2], opaque, depth + 1)])
+    if d.op == 'call' and d.callee.startswith('@'):
+        g = fn.mod.functions.get(d.callee)
+        if g is not None and len(g.order) == 1 and depth < 20:
+            rets = [i for i in g.insts() if i.op == 'ret' and i.ops]
+            if rets:
+                return ('call', d.callee, tree(g, rets[0].ops[0], (), depth + 1), [tree(fn, a, opaque, depth + 1) for a in d.ops])
     return ('v', v)
 
 def leaves(t, out=None):
@@ -36,6 +42,13 @@ def leaves(t, out=None):
     if t[0] == 'phi':
         for x in t[1]:
             leaves(x, out)
+        return out
+    if t[0] == 'call':
+        inner = leaves(t[2], set())
+        if any(l[0] == 'v' for l in inner):
+            out.add(('v', t[1]))
+        for a in t[3]:
+            leaves(a, out)
         return out
     leaves(t[2], out); leaves(t[3], out)
     return out
@@ -55,6 +68,9 @@ def evaluate(t, env):
         return wrap(x, w1)
     if k == 'phi':
         raise ValueError('phi')
+    if k == 'call':
+        sub = {('p', i): evaluate(a, env) for i, a in enumerate(t[3])}
+        return evaluate(t[2], sub)
     op, ty, a, b = t
     x, y = evaluate(a, env), evaluate(b, env)
     w = width_of(ty)
@@ -79,4 +95,10 @@ def alternatives(t):
         for x in t[1]:
             out += alternatives(x)
         return out
+    if t[0] == 'call':
+        inner = alternatives(t[2])
+        if len(inner) != 1:
+            return [('v', t[1])]
+        import itertools
+        return [('call', t[1], inner[0], list(args)) for args in itertools.product(*[alternatives(a) for a in t[3]])]
     return [(t[0], t[1], a, b) for a in alternatives(t[2]) for b in alternatives(t[3])]
